@@ -216,25 +216,46 @@ type c13Event struct {
 }
 
 type c13State struct {
-	c       *Ctx
-	t       *tabular.ATable
-	shape   c13Shape
-	regs    []*c13Reg
-	rows    []*tabular.Row // per row spec; nil until created
-	att     []bool         // attached?
-	ncell   []int          // cells currently in the row
-	hdrSet  bool
-	built   bool
-	events  []c13Event
-	evSeq   int
-	windows int
-	log     []string
-	desc    map[string]interface{}
+	c        *Ctx
+	t        *tabular.ATable
+	shape    c13Shape
+	regs     []*c13Reg
+	rows     []*tabular.Row // per row spec; nil until created
+	att      []bool         // attached?
+	ncell    []int          // cells currently in the row
+	hdrSet   bool
+	built    bool
+	events   []c13Event
+	evSeq    int
+	windows  int
+	itemSalt int
+	log      []string
+	desc     map[string]interface{}
 	// current window
 	wKind string // "RowAdd", "AddRow", "AddHeaders", "AddSeparator", "Render"
 	wRow  int
 	wCell int
 	bad   bool
+}
+
+// item is what cell k of row i holds: callbacks fire for a cell whatever it holds - nothing, the empty string, a
+// typed nil pointer, a number, another cell - not only for cells with a text.
+func (s *c13State) item(i, k int, text string) interface{} {
+	switch (i*7 + k*3 + s.itemSalt) % 9 {
+	case 0:
+		return nil
+	case 1:
+		return ""
+	case 2:
+		return (*gen.NilSafe)(nil)
+	case 3:
+		return i*10 + k
+	case 4:
+		return tabular.NewCell(text)
+	case 5:
+		return []byte(nil)
+	}
+	return text
 }
 
 func (s *c13State) say(f string, a ...interface{}) { s.log = append(s.log, fmt.Sprintf(f, a...)) }
@@ -700,7 +721,7 @@ func (s *c13State) build() {
 		}
 		items := make([]interface{}, sh.header)
 		for i := range items {
-			items[i] = fmt.Sprintf("h%d", i+1)
+			items[i] = s.item(-1, i, fmt.Sprintf("h%d", i+1))
 		}
 		s.window("AddHeaders", -1, -1, fmt.Sprintf("t.AddHeaders(%d items)", sh.header), func() { t.AddHeaders(items...) })
 		s.hdrSet = true
@@ -722,7 +743,7 @@ func (s *c13State) build() {
 		case rs.mode == 0:
 			items := make([]interface{}, rs.n)
 			for k := range items {
-				items[k] = fmt.Sprintf("r%dc%d", i+1, k+1)
+				items[k] = s.item(i, k, fmt.Sprintf("r%dc%d", i+1, k+1))
 			}
 			s.ncell[i] = rs.n
 			s.window("AddRow", i, -1, fmt.Sprintf("t.AddRowItems(%d items)", rs.n), func() {
@@ -737,7 +758,7 @@ func (s *c13State) build() {
 			s.flush()
 			for k := 0; k < rs.n; k++ {
 				k := k
-				s.window("RowAdd", i, k, fmt.Sprintf("r%d.Add(cell %d)  [row not attached]", i+1, k+1), func() { r.Add(tabular.NewCell(fmt.Sprintf("r%dc%d", i+1, k+1))); s.ncell[i] = k + 1 })
+				s.window("RowAdd", i, k, fmt.Sprintf("r%d.Add(cell %d)  [row not attached]", i+1, k+1), func() { r.Add(tabular.NewCell(s.item(i, k, fmt.Sprintf("r%dc%d", i+1, k+1)))); s.ncell[i] = k + 1 })
 				s.flush()
 			}
 			s.window("AddRow", i, -1, fmt.Sprintf("t.AddRow(r%d)", i+1), func() { t.AddRow(r); s.att[i] = true })
@@ -747,7 +768,7 @@ func (s *c13State) build() {
 			s.flush()
 			for k := 0; k < rs.n; k++ {
 				k := k
-				s.window("RowAdd", i, k, fmt.Sprintf("r%d.Add(cell %d)  [row already attached]", i+1, k+1), func() { r.Add(tabular.NewCell(fmt.Sprintf("r%dc%d", i+1, k+1))); s.ncell[i] = k + 1 })
+				s.window("RowAdd", i, k, fmt.Sprintf("r%d.Add(cell %d)  [row already attached]", i+1, k+1), func() { r.Add(tabular.NewCell(s.item(i, k, fmt.Sprintf("r%dc%d", i+1, k+1)))); s.ncell[i] = k + 1 })
 				s.flush()
 			}
 		}
@@ -775,6 +796,7 @@ var c13Triggers = []struct {
 func c13RunCase(c *Ctx, shape c13Shape, regs []*c13Reg, triggers []int, sample bool) {
 	s := &c13State{c: c, t: tabular.New(), shape: shape, regs: regs, desc: map[string]interface{}{}}
 	c13ZNext = 0
+	s.itemSalt = int(gen.Hash64(shape.String(), fmt.Sprint(len(regs), triggers)) % 9)
 	s.rows = make([]*tabular.Row, len(shape.rows))
 	s.att = make([]bool, len(shape.rows))
 	s.ncell = make([]int, len(shape.rows))
